@@ -10,7 +10,7 @@
 //! reports outcome, process CPU time and counted allocation of the probe step alone.
 //!
 //! Oracles (parent side):
-//!  * cost:  peak-live allocation <= 64 KiB + 1 KiB*(b+n), cpu <= 50 ms + 20 us*(b+n);
+//!  * cost:  peak-live allocation <= 64 KiB + 1 KiB*(b+n), cpu <= 300 ms + 20 us*(b+n);
 //!           death by rlimit / allocation failure is the violation itself;
 //!  * error: observed outcome must be in the probe's allowed set (table frame-shape -> ErrorKind).
 //!
@@ -88,7 +88,9 @@ fn alloc_budget(b: u64, n: u64) -> u64 {
     64 * 1024 + 1024 * (b + n)
 }
 fn cpu_budget_us(b: u64, n: u64) -> u64 {
-    50_000 + 20 * (b + n)
+    // normal handling costs well under 100 us; the base is 3000x that so that a heavily loaded host (CPU steal,
+    // slow page faults: up to 180x inflation was observed) cannot turn noise into a verdict
+    300_000 + 20 * (b + n)
 }
 
 // ------------------------------------------------------------------------------------------
